@@ -63,7 +63,7 @@ def reference_W(spec, X, Y):
     return Vt.T @ (f[:, None] * (U.T @ Y))
 
 
-def fit_pcovr(X, Y, mixing, k, spec, space, solver, prefit=False, regressor_obj=None, int_dtype=False):
+def fit_pcovr(X, Y, mixing, k, spec, space, solver, prefit=False, regressor_obj=None, int_dtype=False, y_int=False):
     """Fit the real PCovR. Returns (estimator, exception). prefit: the estimator is a USED one
     (fitted before on other data of the same shape)."""
     import warnings
@@ -97,6 +97,9 @@ def fit_pcovr(X, Y, mixing, k, spec, space, solver, prefit=False, regressor_obj=
                 Yfit = np.asarray(X) @ W
             else:
                 W, Yfit = None, np.asarray(Y, float)
+            if y_int and not spec.startswith("pre"):
+                Yfit = np.asarray(Y).astype(np.int64)  # integer-valued targets handed over with an integer dtype
+                bufY = None
             if bufX is not None and bufY is not None and bufY.shape == Yfit.shape:
                 bufX[...] = np.asarray(X, float)
                 bufY[...] = Yfit
